@@ -583,6 +583,74 @@ def run_one(ctx, rng, macro, goal, g=None):
             {'macro': macro, 'goal': S.jsonable(goal), 'point': pt})
 
 
+def exact_zero_goal(rng):
+    """-> (goal, truth, shape): a constant that is EXACTLY zero by an identity the floating-point evaluation cannot see
+    (sin (k pi), cos ((2k+1) pi / 2), sqrt n * sqrt n - n, scaled / added up) compared with 0 or with another such
+    constant.  The float value of such a term is noise of either sign around 1e-16, so a comparison that is relative
+    only (no absolute floor) reads a strict sign off the noise.  Truth is known by construction: 0 rel 0."""
+    T = S.REAL
+    pi = A.c('pi', T)
+
+    def zero():
+        k = rng.random()
+        if k < 0.35:
+            m = rng.choice([1, 2, 3, 4])
+            arg = A.binop('times', T, A.num(T, m), pi) if m != 1 else pi
+            return ('comb', A.c('sin', S.fun(T, T)), arg), 'sin-k-pi'
+        if k < 0.6:
+            m = rng.choice([1, 3, 5])
+            arg = A.binop('times', T, A.num(T, m), pi) if m != 1 else pi
+            return ('comb', A.c('cos', S.fun(T, T)), A.binop('real_divide', T, arg, A.num(T, 2))), 'cos-odd-half-pi'
+        n = rng.choice([2, 3, 5, 7])
+        sq = ('comb', A.c('sqrt', S.fun(T, T)), A.num(T, n))
+        return A.binop('minus', T, A.binop('times', T, sq, sq), A.num(T, n)), 'sqrt-n-squared-minus-n'
+
+    z, shape = zero()
+    r = rng.random()
+    if r < 0.2:
+        z = A.binop('times', T, A.num(T, rng.choice([2, 3, -2, Fraction(1, 2)])), z)
+        shape += '*c'
+    elif r < 0.35:
+        z2, sh2 = zero()
+        z = A.binop('plus', T, z, z2)
+        shape += '+' + sh2
+    other = A.num(T, 0)
+    if rng.random() < 0.15:
+        other, sh2 = zero()
+        shape += ' vs ' + sh2
+    relname = rng.choice(['greater', 'less', 'greater', 'less', 'greater_eq', 'less_eq', 'equals', 'nequals'])
+    a, b = (z, other) if rng.random() < 0.6 else (other, z)
+    if relname == 'nequals':
+        return A.neg_p(A.rel('equals', T, a, b)), False, shape
+    return A.rel(relname, T, a, b), relname in ('greater_eq', 'less_eq', 'equals'), shape
+
+
+def run_exact_zero(ctx, rng):
+    """directed family: the accepted statement is judged by construction (the numeric evaluator cannot decide 0 = 0)"""
+    from kernel import theory
+    from kernel.proof import Proof, ProofItem
+    goal, truth, shape = exact_zero_goal(rng)
+    macro = 'const_inequality'
+    prf = Proof()
+    prf.items.append(ProofItem(0, macro, args=S.to_repo_term(goal)))
+    ctx.count('exact_zero_calls')
+    try:
+        th = theory.thy.check_proof(prf, check_level=0)
+    except Exception:
+        ctx.count('exact_zero_rejected')
+        return
+    hy, pr = S.thm_shadow(th)
+    if hy or not S.aeq(pr, goal):
+        ctx.count('exact_zero_accepted_as_another_statement')
+        return
+    ctx.count('exact_zero_accepted_true' if truth else 'exact_zero_accepted_false')
+    if not truth:
+        ctx.violation('const_inequality:strict-sign-read-off-float-noise-of-an-exact-zero',
+                      'const_inequality accepted %s, but both sides are exactly equal (%s): the sign comes from rounding noise'
+                      % (S.tm_str(goal), shape), {'macro': macro, 'goal': S.jsonable(goal), 'point': None, 'family': 'exact-zero'})
+    ctx.case(('exact-zero', goal), nontrivial=True)
+
+
 def alloc_reuse_case(ctx, rng, macro):
     """W-HIST: a goal is decided, every object of it is released, and a DIFFERENT goal of the same shape is built from
     parts that were allocated before - so that CPython hands the new goal the memory (and the id()) of the old one.
@@ -662,6 +730,8 @@ def run_shard(ctx, spec):
                 ctx.count('gen_skipped')
                 continue
             run_one(ctx, rng, macro, goal)
+            if macro == 'const_inequality':
+                run_exact_zero(ctx, rng)
             if k % 4 == 0:
                 alloc_reuse_case(ctx, rng, macro)
             ctx.case((macro, goal), nontrivial=S.size(goal) >= 5,
